@@ -2095,10 +2095,12 @@ def disk_io_counters(perdisk=False, nowrap=True):
     """
     kwargs = dict(perdisk=perdisk) if LINUX else {}
     rawdict = _psplatform.disk_io_counters(**kwargs)
+    if nowrap:
+        # Also done if there are no disks, so that disks which disappear
+        # and later reappear are not mistaken for wrapped counters.
+        rawdict = _wrap_numbers(rawdict, 'psutil.disk_io_counters')
     if not rawdict:
         return {} if perdisk else None
-    if nowrap:
-        rawdict = _wrap_numbers(rawdict, 'psutil.disk_io_counters')
     nt = getattr(_psplatform, "sdiskio", _common.sdiskio)
     if perdisk:
         for disk, fields in rawdict.items():
@@ -2146,10 +2148,12 @@ def net_io_counters(pernic=False, nowrap=True):
     cache.
     """
     rawdict = _psplatform.net_io_counters()
+    if nowrap:
+        # Also done if there are no NICs, so that NICs which disappear
+        # and later reappear are not mistaken for wrapped counters.
+        rawdict = _wrap_numbers(rawdict, 'psutil.net_io_counters')
     if not rawdict:
         return {} if pernic else None
-    if nowrap:
-        rawdict = _wrap_numbers(rawdict, 'psutil.net_io_counters')
     if pernic:
         for nic, fields in rawdict.items():
             rawdict[nic] = _common.snetio(*fields)
